@@ -3,7 +3,7 @@
    every sequence of API, scheduler and transport ops; the asyncio transport and the kernel are the environment
    (arbitrary op sequences / arbitrary oracle scripts; contracts appear as explicit hypotheses).
    This file contains only statements closed by `exact` and their Print Assumptions. *)
-From AV Require Import Base SockProto SockProtoProofs SockProtoThms UnixLoop UnixLoopProofs.
+From AV Require Import Base SockProto SockProtoProofs SockProtoThms SockProtoLive UnixLoop UnixLoopProofs.
 
 (* stepv p: p = false is HEAD, p = true the pinned tree before commit ab750b3; r0 = initial reading flag *)
 
@@ -119,6 +119,20 @@ Theorem C18_send_gate_opened_only_by_transport : forall p s o ev,
   o = ResumeWriting \/ exists e, o = ConnectionLost e.
 Proof. exact send_gate_opened_only_by_transport. Qed.
 Print Assumptions C18_send_gate_opened_only_by_transport.
+
+(* no deadlock of AnyIO's making: whoever is still suspended has nothing to be woken for *)
+Theorem C18_sock_no_lost_wakeup : forall p r0 s t,
+  reachv p r0 s ->
+  (forall mx, phase_of s t = RecvWait mx FPending ->
+     rq s = [] /\ rev s = false /\ eof s = false /\ exc s = None /\ g_lostclean s = false) /\
+  (forall ev, phase_of s t = SendWait ev FPending -> wval s ev = false).
+Proof. exact sock_no_lost_wakeup. Qed.
+Print Assumptions C18_sock_no_lost_wakeup.
+
+Theorem C18_sock_queue_implies_event : forall p r0 s,
+  reachv p r0 s -> rq s <> [] -> rev s = true.
+Proof. exact sock_queue_implies_event. Qed.
+Print Assumptions C18_sock_queue_implies_event.
 
 (* HEAD (commit ab750b3): receive-side flow control *)
 Theorem C18_sock_reading_paused_unless_waiting : forall s,
